@@ -218,6 +218,13 @@ class C15(Prop):
 # both entry points on one item: the attribute macro takes every `#[derive_ex(..)]` list of the item, also those written
 # after `#[derive(Ex)]` - the request is worth the merged one.  (entry point, arguments, item) pairs with equal impls
 EQUIVALENT_REQUESTS = [
+    # several `#[derive_ex(..)]` lists on ONE field / variant are worth the merged list (none of them is dropped)
+    (('A', 'Clone, Default', 'struct X<T>(#[derive_ex(Clone(bound(T: Copy, ..)))] #[derive_ex(Default(bound(T: Send, ..)))] T, u8);'),
+     ('A', 'Clone, Default', 'struct X<T>(#[derive_ex(Clone(bound(T: Copy, ..)), Default(bound(T: Send, ..)))] T, u8);')),
+    (('D', '', '#[derive_ex(Clone, Debug, PartialEq)] enum E<T> { #[derive_ex(Clone(bound(T: Copy)))] #[derive_ex(Debug(bound()))] #[derive_ex(PartialEq)] A(T), B }'),
+     ('D', '', '#[derive_ex(Clone, Debug, PartialEq)] enum E<T> { #[derive_ex(Clone(bound(T: Copy)), Debug(bound()), PartialEq)] A(T), B }')),
+    (('A', 'Add, Neg', 'struct X<T> { #[derive_ex(Add(bound(T: Copy, ..)))] #[derive_ex::derive_ex(Neg(bound()))] a: T }'),
+     ('A', 'Add, Neg', 'struct X<T> { #[derive_ex(Add(bound(T: Copy, ..)), Neg(bound()))] a: T }')),
     (('A', 'PartialEq', '#[derive(Ex)] #[derive_ex(Hash)] struct X(#[eq(key = $.len())] String);'),
      ('A', 'PartialEq, Hash', '#[derive(Ex)] struct X(#[eq(key = $.len())] String);')),
     (('A', 'Clone', '#[derive(Ex)] #[derive_ex(Default, Debug)] #[default(X(1))] struct X(#[debug(ignore)] u8);'),
